@@ -1,4 +1,5 @@
 import Thanos.Model.IndexHeader
+import Thanos.Lemmas.Uvarint
 /-
   C11 — label names, symbol lookups with the header's two caches, index format v1.
 -/
@@ -219,5 +220,62 @@ theorem lookupV1_length (e lastEnd : Nat) (tbl : List EntryV1) (name : Nat) (val
     (lookupV1 false e lastEnd tbl name values).length = values.length := by
   unfold lookupV1
   simp [hk]
+
+/-! ### bytes of a table entry -/
+
+open Thanos.Uvarint
+
+theorem decUvarint_uvarint (n : Nat) (rest : List Nat) (hn : n < 2 ^ 64) :
+    decUvarint (uvarint n ++ rest) = (n, rest) := by
+  unfold decUvarint
+  rw [unuvarint_uvarint n rest hn]
+  simp
+
+theorem decUvarintBytes_bytes (bs rest : List Nat) (hn : bs.length < 2 ^ 64) :
+    decUvarintBytes (uvarint bs.length ++ bs ++ rest) = (bs, rest) := by
+  unfold decUvarintBytes
+  rw [List.append_assoc, decUvarint_uvarint _ _ hn]
+  simp
+
+theorem uvarint_two : uvarint 2 = [2] := by rw [uvarint_eq]; simp
+
+/-- the first entry visited: key count and name are decoded, what remains is value and offset, and
+    the remembered length is the length of what was decoded -/
+theorem skip_measure (name value : List Nat) (off : Nat) (rest : List Nat) (hn : name.length < 2 ^ 64) :
+    skipNAndName (entryBytes name value off ++ rest) 0 =
+      (uvarint value.length ++ value ++ uvarint off ++ rest, nameSkipLen name) := by
+  unfold skipNAndName entryBytes
+  simp only [if_true]
+  have h1 : decUvarint (uvarint 2 ++ (uvarint name.length ++ name) ++ (uvarint value.length ++ value ++ uvarint off) ++ rest)
+      = (2, uvarint name.length ++ name ++ ((uvarint value.length ++ value ++ uvarint off) ++ rest)) := by
+    have := decUvarint_uvarint 2 (uvarint name.length ++ name ++ ((uvarint value.length ++ value ++ uvarint off) ++ rest)) (by decide)
+    simpa [List.append_assoc] using this
+  rw [h1]
+  simp only
+  rw [decUvarintBytes_bytes name _ hn]
+  simp only [uvarint_two, nameSkipLen, List.length_append, List.length_cons, List.length_nil, Prod.mk.injEq]
+  refine ⟨by simp [List.append_assoc], by omega⟩
+
+/-- every further entry of the same label name: skipping the remembered length lands on the value -/
+theorem skip_again (name value : List Nat) (off : Nat) (rest : List Nat) :
+    skipNAndName (entryBytes name value off ++ rest) (nameSkipLen name) =
+      (uvarint value.length ++ value ++ uvarint off ++ rest, nameSkipLen name) := by
+  unfold skipNAndName
+  have hpos : nameSkipLen name ≠ 0 := by unfold nameSkipLen; omega
+  simp only [hpos, if_false, Prod.mk.injEq, and_true]
+  unfold entryBytes nameSkipLen
+  rw [uvarint_two]
+  have : ([2] ++ (uvarint name.length ++ name) ++ (uvarint value.length ++ value ++ uvarint off) ++ rest)
+      = ([2] ++ (uvarint name.length ++ name)) ++ (uvarint value.length ++ value ++ uvarint off ++ rest) := by
+    simp [List.append_assoc]
+  rw [this, List.drop_left' (by simp; omega)]
+
+theorem uvarint_length_one_iff (n : Nat) : (uvarint n).length = 1 ↔ n < 128 := by
+  rw [uvarint_eq]
+  by_cases h : n < 128
+  · simp [h]
+  · simp only [h, if_false, List.length_cons, iff_false]
+    have := uvarint_length_pos (n / 128)
+    omega
 
 end Thanos.IndexHeader
